@@ -1,12 +1,266 @@
 /-
-  Driver/OpsFit.lean — driver ops of the "Fit" unit (stub: serves nothing yet).
-  Interface: return `none` for requests this unit does not serve, `some reply` otherwise.
+  Driver/OpsFit.lean — driver ops of the "Fit" unit (property C14): `fit_*`, `dub_*`, `rep_*`.
+  All ops are served at `f64` (the implementation is `double` only).
+
+    fit_tab   <spec>           -                              → U0tB, U1tB ((D+1)×(K+1)) [, P ((K+1)²)]
+    fit_rows  <spec>:<N>       dt[N] dx[N] left[nl] right[nr] → N_eq N_coef, A dense row-major, b
+    fit_resid <spec>:<N>       dt dx left right x[N_coef]     → (row·x − rhs) for every row
+    fit_kkt   <spec>:<N>       dt dx left right               → n, H dense symmetric (n×n), rhs
+    fit_glue  <G>:<spec>:<N>   ts[N] gs[N·rep] V[dof·(K+1)(N−1)] → per segment: t_mid, c(t_mid)[rep]
+    fit_bsp   <K>              t0 t1 dt                       → NumPts t_min t_max
+    dub_word  3                x y qz qw R                    → six candidates (3 each), word(3), lengths(3),
+                                                                 emitted (vx vy κ T)×3, total time
+    rep_run   <dof>:<N>        s0 sf, (vel acc)[N+1 grid points 0..N], vmin vmax amin amax, start end,
+                               (y_opt status)[N]              → T, n_seg, v2end, v2max[0..N], LP rows (3·(1+3·dof) per
+                                                                 grid point), (dt c1 c2 s0)*
+    rep_lp    <n>              rows (a b c)[n]                → exact optimum of max y s.t. a·y + b·a' ≤ c, status
+  `rep_run` takes the LP results as the parameter (the plugin obtains them from the implementation's
+  `lp2d::solve` on exactly the rows this model emits); `rep_lp` is the exact rational LP used to
+  audit `lp2d::solve` (vertex enumeration).
 -/
 import SmoothModel
+import SmoothModel.Fit
+import SmoothModel.Dubins
+import SmoothModel.Reparam
 import Driver.Ops
 
-namespace Drv
+open Scalar Lin
 
-def runFit (_op _grp _prec : String) (_args : Array String) : Option String := none
+namespace Drv
+namespace FitOps
+
+abbrev F := Float
+
+def hexs (xs : List F) : String := " ".intercalate (xs.map Bits.toHex)
+
+def parseArgs (args : Array String) : Array F := args.map Bits.ofHex
+
+def slice (x : Array F) (off len : Nat) : List F := (List.range len).map (fun i => x.getD (off + i) 0.0)
+
+def tau : F := 1e-21
+
+def specNb (s : Fit.Spec) : Nat × Nat := (s.leftDeg.length, s.rghtDeg.length)
+
+/-- split the common input block `dt dx left right` -/
+def splitIn (s : Fit.Spec) (N : Nat) (x : Array F) : List F × List F × List F × List F :=
+  let (nl, nr) := specNb s
+  (slice x 0 N, slice x N N, slice x (2 * N) nl, slice x (2 * N + nl) nr)
+
+def fitTab (s : Fit.Spec) : List F :=
+  let D := s.D
+  let K := s.K
+  let u0 := (List.range (D + 1)).flatMap (fun d => (List.range (K + 1)).map (fun j => (Fit.u0tB K d j : F)))
+  let u1 := (List.range (D + 1)).flatMap (fun d => (List.range (K + 1)).map (fun j => (Fit.u1tB K d j : F)))
+  let p := match s.optDeg with
+    | some O => (matToArray (Fit.costP (α := F) K O)).toList
+    | none => []
+  u0 ++ u1 ++ p
+
+def denseRow (nC : Nat) (r : Fit.Row F) : List F :=
+  let a := r.ent.foldl (fun (acc : Array F) e => if e.1 < nC then acc.set! e.1 (acc[e.1]! + e.2) else acc)
+    (Array.replicate nC 0.0)
+  a.toList
+
+def fitRows (s : Fit.Spec) (N : Nat) (x : Array F) : List F :=
+  let (dt, dx, lv, rv) := splitIn s N x
+  let rs := (Fit.rows s dt dx lv rv).map (Fit.pruneRow tau)
+  let nC := s.nCoef N
+  [Float.ofNat (s.nEq N), Float.ofNat nC, Float.ofNat rs.length]
+    ++ rs.flatMap (denseRow nC) ++ rs.map (·.rhs)
+
+def fitResid (s : Fit.Spec) (N : Nat) (x : Array F) : List F :=
+  let (dt, dx, lv, rv) := splitIn s N x
+  let (nl, nr) := specNb s
+  let off := 2 * N + nl + nr
+  let xv : Nat → F := fun c => x.getD (off + c) 0.0
+  (Fit.rows s dt dx lv rv).map (fun r => Fit.rowDot (Fit.pruneRow tau r) xv - r.rhs)
+
+def fitKkt (s : Fit.Spec) (N : Nat) (x : Array F) : Except String (List F) :=
+  match s.optDeg with
+  | none => .error "spec has no optimisation"
+  | some O =>
+    let (dt, dx, lv, rv) := splitIn s N x
+    let n := s.nCoef N + s.nEq N
+    let ents := Fit.kktEntries s O tau dt dx lv rv
+    let H := ents.foldl (fun (acc : Array F) e =>
+      let (r, c, v) := e
+      if r < n ∧ c < n then
+        let acc := acc.set! (r * n + c) v
+        if r ≠ c then acc.set! (c * n + r) v else acc
+      else acc) (Array.replicate (n * n) 0.0)
+    .ok ([Float.ofNat n] ++ H.toList ++ Fit.kktRhs s dt dx lv rv)
+
+/-- fit_glue over a group model -/
+def fitGlue (G : LieModel F) (s : Fit.Spec) (N : Nat) (x : Array F) : Except String (List F) := do
+  let K := s.K
+  let nV := G.dof * (K + 1) * (N - 1)
+  if x.size ≠ N + N * G.rep + nV then throw s!"arity: got {x.size} want {N + N * G.rep + nV}"
+  let ts := slice x 0 N
+  let gs : List (Vec F G.rep) := (List.range N).map (fun i => memoV (ofArray G.rep x (N + i * G.rep)))
+  let offV := N + N * G.rep
+  let V : Fin G.dof → Nat → F := fun k c => x.getD (offV + k.val * ((K + 1) * (N - 1)) + c) 0.0
+  let segs := Fit.fitSegs G K ts gs V
+  let ends := Fit.endTimes (segs.map (·.dt))
+  let starts := (0.0 : F) :: ends
+  let out := ((segs.zip (starts.zip ends))).flatMap (fun p =>
+    let ta := p.2.1
+    let tb := p.2.2
+    let tm := ta + 0.5 * (tb - ta)
+    tm :: (toArray (Fit.evalSeg G p.1 ta tb tm)).toList)
+  return out
+
+def truncF (x : F) : Nat := x.toUInt64.toNat
+
+def fitBsp (K : Nat) (x : Array F) : Except String (List F) := do
+  if x.size ≠ 3 then throw "arity"
+  let t0 := x[0]!
+  let t1 := x[1]!
+  let dt := x[2]!
+  return [Float.ofNat (Fit.bsplineNumPts truncF K t0 t1 dt), t0, Fit.bsplineTmax truncF K t0 t1 dt]
+
+def t3 (p : F × F × F) : List F := [p.1, p.2.1, p.2.2]
+
+def dubWord (x : Array F) : Except String (List F) := do
+  if x.size ≠ 5 then throw "arity"
+  let target : Vec F 4 := memoV (ofArray 4 x)
+  let R := x[4]!
+  let cs := Dubins.candidates target R
+  let six := cs.flatMap (fun c => t3 c.l)
+  match (Dubins.scan (fun a b => decide (a < b)) (Dubins.inf : F) cs).2 with
+  | none => return six ++ [0.0 / 0.0]
+  | some c =>
+    let em := Dubins.emit R c
+    return six ++ [Float.ofNat c.w.1.code, Float.ofNat c.w.2.1.code, Float.ofNat c.w.2.2.code] ++ t3 c.l
+      ++ em.flatMap (fun e => [e.vx, e.vy, e.kappa, e.T]) ++ [Dubins.totalTime em]
+
+-- ---------------------------------------------------------------- exact 2-d LP (parameter of rep_run)
+
+def ratOf (x : F) : Rat := Oracle.ratOfBits64 x.toBits
+
+/-- is there an `a` with all rows satisfied at this `y`? -/
+def feasibleAt (rows : List (Rat × Rat × Rat)) (y : Rat) : Bool :=
+  let ok0 := rows.all (fun r => r.2.1 != (0 : Rat) || decide (r.1 * y ≤ r.2.2))
+  let ub := rows.foldl (fun (acc : Option Rat) r =>
+    if (0 : Rat) < r.2.1 then
+      let v := (r.2.2 - r.1 * y) / r.2.1
+      match acc with | none => some v | some u => some (if v < u then v else u)
+    else acc) none
+  let lb := rows.foldl (fun (acc : Option Rat) r =>
+    if r.2.1 < (0 : Rat) then
+      let v := (r.2.2 - r.1 * y) / r.2.1
+      match acc with | none => some v | some u => some (if v > u then v else u)
+    else acc) none
+  ok0 && (match lb, ub with | some l, some u => decide (l ≤ u) | _, _ => true)
+
+/-- maximise `y` subject to `a_k y + b_k a ≤ c_k`; (0,0) is assumed feasible.
+    Returns (y*, status) with status 0 = optimal, 2 = unbounded. -/
+def lpExact (rows : List (Rat × Rat × Rat)) : Rat × Nat :=
+  -- unbounded iff a recession direction (1, t) exists
+  let rec0 := rows.all (fun r => r.2.1 != (0 : Rat) || decide (r.1 ≤ (0 : Rat)))
+  let ubT := rows.foldl (fun (acc : Option Rat) r =>
+    if (0 : Rat) < r.2.1 then let v := -r.1 / r.2.1
+      match acc with | none => some v | some u => some (if v < u then v else u) else acc) none
+  let lbT := rows.foldl (fun (acc : Option Rat) r =>
+    if r.2.1 < (0 : Rat) then let v := -r.1 / r.2.1
+      match acc with | none => some v | some u => some (if v > u then v else u) else acc) none
+  let unb := rec0 && (match lbT, ubT with | some l, some u => decide (l ≤ u) | _, _ => true)
+  if unb then ((0 : Rat), 2) else
+  let singles := rows.filterMap (fun r => if r.2.1 == (0 : Rat) && r.1 != (0 : Rat) then some (r.2.2 / r.1) else none)
+  let pairs := rows.flatMap (fun r1 => rows.filterMap (fun r2 =>
+    let det := r1.1 * r2.2.1 - r2.1 * r1.2.1
+    if det == (0 : Rat) then none else some ((r1.2.2 * r2.2.1 - r2.2.2 * r1.2.1) / det)))
+  let best := (singles ++ pairs).foldl (fun (acc : Rat) y =>
+    if y > acc && feasibleAt rows y then y else acc) (0 : Rat)
+  (best, 0)
+
+def rowsOfArray (x : Array F) (n : Nat) : List (Rat × Rat × Rat) :=
+  (List.range n).map (fun i => (ratOf (x.getD (3 * i) 0.0), ratOf (x.getD (3 * i + 1) 0.0), ratOf (x.getD (3 * i + 2) 0.0)))
+
+/-- `rep_lp <n>`: exact optimum of `max y` over the rows → (y*, status) -/
+def repLp (n : Nat) (x : Array F) : Except String (List F) := do
+  if x.size ≠ 3 * n then throw "arity"
+  let r := lpExact (rowsOfArray x n)
+  return [Oracle.ratToFloat r.1, Float.ofNat r.2]
+
+def repRun (dof N : Nat) (x : Array F) : Except String (List F) := do
+  let want := 2 + (N + 1) * 2 * dof + 4 * dof + 2 + 2 * N
+  if x.size ≠ want then throw s!"arity: got {x.size} want {want}"
+  let s0 := x[0]!
+  let sf := x[1]!
+  let samples : List (Reparam.Sample F dof) := (List.range (N + 1)).map (fun i =>
+    ⟨memoV (ofArray dof x (2 + i * 2 * dof)), memoV (ofArray dof x (2 + i * 2 * dof + dof))⟩)
+  let ob := 2 + (N + 1) * 2 * dof
+  let b : Reparam.Bounds F dof :=
+    ⟨memoV (ofArray dof x ob), memoV (ofArray dof x (ob + dof)), memoV (ofArray dof x (ob + 2 * dof)),
+     memoV (ofArray dof x (ob + 3 * dof))⟩
+  let sv := x[ob + 4 * dof]!
+  let ev := x[ob + 4 * dof + 1]!
+  let ol := ob + 4 * dof + 2
+  let lpres : List (F × F × Nat) := (List.range N).map (fun i =>
+    (x.getD (ol + 2 * i) 0.0, 0.0, truncF (x.getD (ol + 2 * i + 1) 0.0)))
+  let ds := (sf - s0) / Float.ofNat N
+  match samples.getLast? with
+  | none => throw "no samples"
+  | some pEnd =>
+    let grid := samples.take N
+    let v2end := Reparam.endV2 b ev pEnd
+    let v2max := Reparam.backward lpres (0.0 / 0.0) v2end
+    let rows := Reparam.lpRowsAll b ds v2max grid
+    let segs := Reparam.forward b s0 ds sv v2max grid
+    return [Reparam.totalTime segs, Float.ofNat segs.length, v2end] ++ v2max
+      ++ rows.flatMap (fun rs => rs.flatMap t3)
+      ++ segs.flatMap (fun sg => [sg.dt, sg.c1, sg.c2, sg.s0])
+
+def natOf (s : String) : Nat := s.toNat?.getD 0
+
+def reply (r : Except String (List F)) : String :=
+  match r with
+  | .ok xs => hexs xs
+  | .error e => "ERR " ++ e
+
+end FitOps
+
+open FitOps in
+def runFit (op grp prec : String) (args : Array String) : Option String :=
+  if !(op.startsWith "fit_" || op.startsWith "dub_" || op.startsWith "rep_") then none
+  else if prec != "f64" then some "ERR bad-prec"
+  else
+    let x := parseArgs args
+    let parts := grp.splitOn ":"
+    match op with
+    | "fit_tab" =>
+      match Fit.Spec.ofName grp with
+      | some s => some (hexs (fitTab s))
+      | none => some "ERR unknown-spec"
+    | "fit_rows" | "fit_resid" | "fit_kkt" =>
+      match parts with
+      | [sn, n] =>
+        match Fit.Spec.ofName sn with
+        | some s =>
+          let N := natOf n
+          let (nl, nr) := specNb s
+          let base := 2 * N + nl + nr
+          if op == "fit_resid" then
+            if x.size ≠ base + s.nCoef N then some "ERR arity" else some (hexs (fitResid s N x))
+          else if x.size ≠ base then some "ERR arity"
+          else if op == "fit_rows" then some (hexs (fitRows s N x))
+          else some (reply (fitKkt s N x))
+        | none => some "ERR unknown-spec"
+      | _ => some "ERR bad-grp"
+    | "fit_glue" =>
+      match parts with
+      | [g, sn, n] =>
+        match Fit.Spec.ofName sn, groupOf (α := Float) g with
+        | some s, some G => some (reply (fitGlue G s (natOf n) x))
+        | _, _ => some "ERR unknown-spec-or-group"
+      | _ => some "ERR bad-grp"
+    | "fit_bsp" => some (reply (fitBsp (natOf grp) x))
+    | "dub_word" => some (reply (dubWord x))
+    | "rep_run" =>
+      match parts with
+      | [d, n] => some (reply (repRun (natOf d) (natOf n) x))
+      | _ => some "ERR bad-grp"
+    | "rep_lp" => some (reply (repLp (natOf grp) x))
+    | _ => some "ERR unknown-op"
 
 end Drv
